@@ -891,3 +891,77 @@ def r_classes(A, ctx, scope, rule="R-CLASSES"):
                             "targets: with labels other than 0..K-1 the estimator predicts encoded codes instead "
                             "of the caller's labels", loc=loc(f, st))
     ctx.floor(rule, n, 1)
+
+
+def _rowwise_max_of(e, name):
+    """`name.max(axis=1|-1, ...)`, `np.max(name, axis=1|-1, ...)`, optionally `[:, None]` /
+    `.reshape(...)`-ed"""
+    while isinstance(e, ast.Subscript) or (isinstance(e, ast.Call) and isinstance(e.func, ast.Attribute)
+                                            and e.func.attr == "reshape"):
+        e = e.value if isinstance(e, ast.Subscript) else e.func.value
+    if not isinstance(e, ast.Call):
+        return False
+    fn = ast.unparse(e.func)
+    if fn in (f"{name}.max", "np.max", "np.amax"):
+        if fn != f"{name}.max" and not (e.args and ast.unparse(e.args[0]) == name):
+            return False
+        ax = next((k.value for k in e.keywords if k.arg == "axis"), None)
+        if ax is None and fn != f"{name}.max" and len(e.args) > 1:
+            ax = e.args[1]
+        if ax is None and fn == f"{name}.max" and e.args:
+            ax = e.args[0]
+        return ax is not None and ast.unparse(ax) in ("1", "-1")
+    return False
+
+
+def r_expstable(A, ctx, scope, rule="R-EXPSTABLE"):
+    """C12: probabilities are finite and sum to one for every finite decision value"""
+    ctx.rule(rule, "no hand-written exponential of an unbounded decision value on the prediction side: in "
+             "`predict*` methods of the estimators an `np.exp` is applied only to an argument that is "
+             "bounded above per row - the array minus its row-wise maximum (`z - z.max(axis=1, ...)`, also "
+             "as a preceding in-place `z -= ...`), a negated absolute value, or a clipped value; library "
+             "links (expit, softmax, logsumexp) are not concerned.  Without the shift exp overflows for "
+             "large decision values (inf / inf), with a global shift far rows underflow to 0 / 0: the "
+             "probabilities are NaN instead of summing to one")
+    em = A.prog.modules.get("skglm.estimators")
+    if em is None:
+        raise AnalysisError("skglm.estimators missing")
+    n = n_exp = 0
+    for cls in em.classes.values():
+        for m in cls.methods.values():
+            if m.name in ("fit", "path", "__init__", "get_params", "set_params"):
+                continue
+            n += 1
+            for c in ast.walk(m.node):
+                if not (isinstance(c, ast.Call) and ast.unparse(c.func) in ("np.exp", "numpy.exp", "math.exp", "np.expm1")
+                        and c.args):
+                    continue
+                n_exp += 1
+                a = c.args[0]
+                ok = False
+                if isinstance(a, ast.BinOp) and isinstance(a.op, ast.Sub) and _rowwise_max_of(a.right, ast.unparse(a.left)):
+                    ok = True
+                elif isinstance(a, ast.UnaryOp) and isinstance(a.op, ast.USub) and isinstance(a.operand, ast.Call) \
+                        and ast.unparse(a.operand.func) in ("np.abs", "abs", "np.logaddexp", "np.fabs"):
+                    ok = True
+                elif isinstance(a, ast.Call) and ast.unparse(a.func) in ("np.clip", "np.minimum") and any(
+                        isinstance(x, ast.Constant) for x in a.args[1:]):
+                    ok = True
+                elif isinstance(a, ast.Name):
+                    # in-place shift before the call: `z -= z.max(axis=1, keepdims=True)`
+                    for st in ast.walk(m.node):
+                        if isinstance(st, ast.AugAssign) and isinstance(st.op, ast.Sub) and isinstance(st.target, ast.Name) \
+                                and st.target.id == a.id and st.lineno < c.lineno and _rowwise_max_of(st.value, a.id):
+                            ok = True
+                        if isinstance(st, ast.Assign) and len(st.targets) == 1 and isinstance(st.targets[0], ast.Name) \
+                                and st.targets[0].id == a.id and st.lineno < c.lineno and isinstance(st.value, ast.BinOp) \
+                                and isinstance(st.value.op, ast.Sub) and _rowwise_max_of(st.value.right, ast.unparse(st.value.left)):
+                            ok = True
+                ctx.ob(rule, f"{m.fq}::{norm_src(c)[:60]}", ok,
+                       what=f"{m.qualname}: `{norm_src(c)[:70]}` exponentiates a decision value that is not shifted by "
+                            "its row-wise maximum (nor otherwise bounded above): for large |decision| the "
+                            "exponential overflows or every entry of a row underflows, and the normalised "
+                            "probabilities are NaN instead of summing to one", loc=loc(m, c))
+    ctx.extra["prediction_methods"] = n
+    ctx.extra["hand_written_exponentials"] = n_exp
+    ctx.floor(rule, n, scope.get("floor", 3))
